@@ -42,3 +42,14 @@ Theorem C17_partial_final_value : forall fixer Va Vb P1 P2 k1 k2 tau1 tau2 ff t,
     (IrvRot.pvalue (sim_side fixer Va P1 k1 tau1) (sim_side fixer Vb P2 k2 tau2) (t_M0 t) + IrvRot.zsum (fun i => nth i (t_ws t) 0%Z) (t_S t))%Z.
 Proof. exact C17_final_value. Qed.
 Print Assumptions C17_partial_final_value.
+
+(* the returned matching is stable w.r.t. the true ordinal profiles, for every run whose hypotheses (IrvStable: stable
+   start, strict rows, exposed rotations) were evaluated by the kernel - any n *)
+Theorem C17_partial_final_matching_stable : forall fixer Va Vb P1 P2 k1 k2 tau1 tau2 ff t, let n := length P1 in
+  double_tsf fixer Va Vb P1 P2 k1 k2 tau1 tau2 ff = Some t ->
+  perfect_b n (map fst (t_M0 t)) = true -> perfect_b n (map snd (t_M0 t)) = true ->
+  IrvStable.pstableb P1 P2 (t_M0 t) = true -> IrvStable.strict_onb P1 (t_M0 t) = true ->
+  IrvStable.exposed_full_allb P1 P2 (t_M0 t) (map (fun i => nth i (t_rots t) []) (t_S t)) = true ->
+  exists M', t_out t = Some M' /\ stable P1 P2 n (wives n M').
+Proof. exact C17_final_stable. Qed.
+Print Assumptions C17_partial_final_matching_stable.
